@@ -108,6 +108,22 @@ def check_case(root, spec, pp, cfg, out, armed):
                     out.violation(dict(case, problem='PurePath.globmatch/full_match differs from glob.globmatch', name=rel, impl=[bool(a), bool(f)],
                                        want=bool(b)), bucket=('pure',))
                     return
+                # the Windows flavour: platform rules fixed by the class, whatever the host is
+                wrel = rel.replace('/', '\\')
+                wpure = WP.PureWindowsPath(wrel)
+                wa = wpure.globmatch(text, flags=fl & ~G.REALPATH)
+                wb = G.globmatch(str(wpure), text, flags=(fl & ~G.REALPATH) | G.FORCEWIN)
+                wm = wpure.match(text, flags=fl & ~G.REALPATH)
+                wm2 = WP.PureWindowsPath(wrel.swapcase()).match(text, flags=fl & ~G.REALPATH)
+                out.evaluations += 1
+                if bool(wa) != bool(wb):
+                    out.violation(dict(case, problem='PureWindowsPath.globmatch differs from glob.globmatch(..., FORCEWIN)', name=wrel, impl=bool(wa),
+                                       want=bool(wb)), bucket=('pure-win',))
+                    return
+                if bool(wm) != bool(wm2) and wrel.isascii():
+                    out.violation(dict(case, problem='PureWindowsPath.match is not case-insensitive', name=wrel, impl=[bool(wm), bool(wm2)]),
+                                  bucket=('pure-win-case',))
+                    return
                 conc = rp / rel
                 with util.chdir(root):
                     c1 = WP.Path(rel).globmatch(text, flags=fl)
